@@ -61,17 +61,8 @@ Proof.
   rewrite G. unfold lookup_pseudo. rewrite Hi. unfold ps_lookup. rewrite Hpn, Hfc.
   assert (E0 : ci =? 0 = false) by (apply N.eqb_neq; lia). rewrite E0. cbn [bind].
   destruct (aget ci (v_mps s)) as [m|] eqn:Em.
-  - destruct (wf_mp s W _ _ Em) as (_ & Hino & _).
-    destruct (convert_entry s (mp_idx m) (mp_ino m) (mp_entry m)) as [e| |] eqn:Ec.
-    + eexists. split; [reflexivity|]. right. exists e. split; [reflexivity|].
-      destruct (convert_entry_shape _ _ _ _ _ Ec) as (E1 & _). exact E1.
-    + exfalso. unfold convert_entry in Ec. destruct (convert_inode (mp_idx m) (mp_ino m)) eqn:Ei.
-      * destruct (to_ext _ (e_uid (mp_entry m))); [destruct (to_ext _ (e_gid (mp_entry m)))|]; discriminate.
-      * destruct (ino_codec (mp_idx m) (mp_ino m)) as (Cz & _ & _).
-        unfold convert_inode in Ei. destruct (mp_ino m =? 0); [discriminate|].
-        destruct (VFS_MAX_INO <? mp_ino m) eqn:El; [apply N.ltb_lt in El; lia|discriminate].
-      * exact (convert_inode_not_panic _ _ Ei).
-    + eexists. split; [reflexivity|]. left. reflexivity.
+  - destruct (wf_mp s W _ _ Em) as (_ & _ & Hent & _ & _).
+    eexists. split; [reflexivity|]. right. exists (mp_entry m). split; [reflexivity|]. exact Hent.
   - rewrite Hf.
     destruct (convert_entry s 0 ci (pseudo_entry ci)) as [e| |] eqn:Ec.
     + eexists. split; [reflexivity|]. right. exists e. split; [reflexivity|].
@@ -226,8 +217,8 @@ Proof.
   destruct (VFS_MAX_INO <? ma_max a); [intros H; inversion H|].
   destruct (v_init s && negb (ma_init_err a =? 0)); [intros H; inversion H|].
   destruct (allocate_fs_idx s) as [[i| |] nx]; try (intros H; inversion H; fail).
-  set (s2 := match map with Some m => with_maps (with_next s nx) (aset i m (v_maps (with_next s nx))) | None => with_next s nx end).
-  assert (Hps : v_ps s2 = v_ps s) by (unfold s2; destruct map; reflexivity).
+  set (s2 := with_maps (with_next s nx) (match map with Some m => aset i m (v_maps (with_next s nx)) | None => adel i (v_maps (with_next s nx)) end)).
+  assert (Hps : v_ps s2 = v_ps s) by reflexivity.
   destruct (insert_mount s2 bid (root_entry_of a) i p) as [s3 [[]|?|]] eqn:Ei; try (intros H; inversion H; fail).
   intros H. inversion H; subst s3 i. clear H.
   unfold insert_mount in Ei. rewrite Hps in Ei. unfold ps_mount in Ei.
@@ -348,8 +339,8 @@ Proof.
     destruct (VFS_MAX_INO <? ma_max a); [inversion Hm; subst; exact IH|].
     destruct (v_init s && negb (ma_init_err a =? 0)); [inversion Hm; subst; exact IH|].
     destruct (allocate_fs_idx s) as [[i| |] nx]; try (inversion Hm; subst; exact IH).
-    set (s2 := match map with Some m => with_maps (with_next s nx) (aset i m (v_maps (with_next s nx))) | None => with_next s nx end) in *.
-    assert (Hps : v_ps s2 = v_ps s) by (unfold s2; destruct map; reflexivity).
+    set (s2 := with_maps (with_next s nx) (match map with Some m => aset i m (v_maps (with_next s nx)) | None => adel i (v_maps (with_next s nx)) end)) in *.
+    assert (Hps : v_ps s2 = v_ps s) by reflexivity.
     destruct (insert_mount s2 bid (root_entry_of a) i p) as [s3 r3] eqn:Ei.
     assert (OK3 : ps_ok (v_ps s3)) by (eapply insert_mount_ps; [rewrite Hps; exact IH|rewrite Hps; exact Hb|exact Ei]).
     destruct r3; inversion Hm; subst; exact OK3.
